@@ -16,7 +16,7 @@ func scenC01(k *K) {
 	nw := k.C.Range(1, min(3, n))
 	conc := []uint{1, 2, 32}[k.C.Intn(3)]
 	refc := []int{1, 2, 64}[k.C.Intn(3)]
-	c := k.NewCluster(ClusterCfg{N: n, Type: typ, PeerOpts: []PeerOpt{WithKnobs(Knobs{Concurrency: conc, RefCount: refc})}})
+	c := k.NewCluster(ClusterCfg{N: n, Type: typ, PeerOpts: append(transportOpt(k), WithKnobs(Knobs{Concurrency: conc, RefCount: refc}))})
 	k.F = swarmFaults(k, true)
 	nops := k.C.Range(4, 14)
 	if Tier == "thorough" {
